@@ -3,15 +3,22 @@ C07 — property theorems (Slepian tapers; tridiagonal solver).  Statements only
 recurrence lemmas are in `Lemmas/TridiFold.lean`, the recurrence → `A·x = b` core in
 `Lemmas/Tridiag.lean`.
 
-PARTIAL BY DESIGN (DESIGN §7 C07): not proved here — that the tridiagonal matrix commutes with
-the sinc kernel (Slepian), simplicity/ordering of its spectrum, convergence of the inverse
-iteration, LAPACK's `eigvals_banded`.  Those clauses are decided per run by residual
-certificates in the correspondence (harness/c07.py) and are reported as certificate checks.
+PROVED since the second build session (section `slepian` below): the tridiagonal matrix whose entries
+are GENERATED from the current `dpss_windows` commutes with the sinc kernel (Slepian), its
+eigenspaces are one-dimensional, hence each of its eigenvectors is an eigenvector of the
+band-limiting operator; eigenvectors of different eigenvalues are orthogonal; the concentration
+of a unit vector lies in [0, 1] (Fourier integral).
+STILL PARTIAL (DESIGN §7 C07): not proved here — that inverse iteration converges to an
+eigenvector of the tridiagonal matrix, the ORDER of the concentrations (largest tridiagonal
+eigenvalue ↔ largest concentration), strictness of 0 < λ < 1, LAPACK's `eigvals_banded`.  Those
+clauses are decided per run by residual certificates in the correspondence (harness/c07.py).
 -/
 import Nitime.Model.C07
 import Nitime.Generated.Tridi
 import Nitime.Lemmas.TridiFold
 import Nitime.Lemmas.Dpss
+import Nitime.Generated.Dpss
+import Nitime.Lemmas.SlepianReal
 
 set_option linter.unusedSectionVars false
 namespace Nitime.C07.Props
@@ -297,5 +304,134 @@ example : quadAutocorr 3 (fun i => ([1, 2, 3] : List Rat).getD i 0) (fun k => ([
 /-- non-vacuity: a 3×3 rational system with non-zero pivots, solved exactly -/
 example : tridisolve (#[4, 5, 6] : Array Rat) #[1, 2, 0] #[1, 2, 3] = #[10/49, 9/49, 43/98] := by
   decide +kernel
+
+/-! ### Slepian: the tridiagonal matrix the code builds and the band-limiting operator -/
+section slepian
+open Finset Real
+
+/-- the matrix entries extracted from the CURRENT `dpss_windows` source are Slepian's:
+`diagonal[n] = ((N-1-2n)/2)²·cos(2πW)`, `off_diag[n] = (n+1)(N-1-n)/2` -/
+theorem generated_matrix_is_slepian {K : Type} [Field K] (N n : ℕ) (cw : K) :
+    Generated.Dpss.diagGen (N : K) (n : K) cw = slepD N cw n ∧
+    Generated.Dpss.offGen (N : K) ((n : K) + 1) = slepE N n := by
+  unfold Generated.Dpss.diagGen Generated.Dpss.offGen slepD slepE
+  constructor <;> (push_cast; ring)
+
+/-- how the CURRENT source wires the pieces together: `W = NW/N`, `nidx = arange(N)`, the
+diagonals go to LAPACK's banded storage as they are, the `Kmax` largest eigenvalues are selected
+and reversed (largest first), and inverse iteration is run on `(diagonal, off_diag, w[k])` -/
+theorem generated_structure :
+    Generated.Dpss.wIsNWoverN = true ∧ Generated.Dpss.nidxIsArange = true ∧
+    Generated.Dpss.bandedStorage = true ∧ Generated.Dpss.selectsTopKmax = true ∧
+    Generated.Dpss.reversesEigs = true ∧ Generated.Dpss.inverseIterationArgs = true := by decide
+
+/-- numpy's normalised sinc -/
+noncomputable def npSincR (x : ℝ) : ℝ := if x = 0 then 1 else Real.sin (π * x) / (π * x)
+
+/-- the autocorrelation weights extracted from the CURRENT source are `r[0] = s(0)`, `r[k] = 2·s(k)`
+for the sinc kernel `s(k) = sin(2πWk)/(πk)`, `s(0) = 2W` — the hypotheses of
+`concentration_is_rayleigh` -/
+theorem generated_r_is_twice_sinc (W : ℝ) (hW : W ≠ 0) :
+    Generated.Dpss.r0Gen W = sincK W 0 ∧
+    ∀ k : ℕ, 1 ≤ k → Generated.Dpss.rGen W (k : ℝ) npSincR = 2 * sincK W (k : ℤ) := by
+  refine ⟨by simp [Generated.Dpss.r0Gen, sincK], fun k hk => ?_⟩
+  have hk0 : (k : ℝ) ≠ 0 := by exact_mod_cast (by omega : k ≠ 0)
+  have hkz : ((k : ℕ) : ℤ) ≠ 0 := by exact_mod_cast (by omega : k ≠ 0)
+  have hx : (2 : ℝ) * W * k ≠ 0 := by positivity
+  unfold Generated.Dpss.rGen npSincR sincK
+  push_cast
+  rw [if_neg hx, if_neg hkz]
+  have hpi := Real.pi_ne_zero
+  have e : π * (2 * W * (k : ℝ)) = 2 * π * W * ((k : ℤ) : ℝ) := by push_cast; ring
+  rw [e]; push_cast
+  field_simp
+  ring
+
+/-- **Slepian's commutation theorem for the generated matrix**: for every `N`, `W`, vector `v` and
+row `m < N`, `T·(S·v) = S·(T·v)`, `T` the tridiagonal matrix of the current source, `S` the sinc
+kernel (band-limiting) operator. -/
+theorem dpss_matrix_commutes_with_sinc (N : ℕ) (W : ℝ) (v : ℕ → ℝ) (m : ℕ) (hm : m < N) :
+    let D := fun n : ℕ => Generated.Dpss.diagGen (N : ℝ) (n : ℝ) (Real.cos (2 * π * W))
+    let E := fun n : ℕ => Generated.Dpss.offGen (N : ℝ) ((n : ℝ) + 1)
+    triOp D E N (kerOp (sincK W) N v) m = kerOp (sincK W) N (triOp D E N v) m := by
+  intro D E
+  have hD : D = slepD N (Real.cos (2 * π * W)) := funext fun n => (generated_matrix_is_slepian N n _).1
+  have hE : E = slepE N := funext fun n => (generated_matrix_is_slepian (K := ℝ) N n 0).2
+  rw [hD, hE]
+  exact slepian_commute_real N W v m hm
+
+/-- **taper ⇒ eigenvector of the band-limiting operator**: any non-zero eigenvector of the
+tridiagonal matrix the code builds (which is what inverse iteration converges to) is an eigenvector
+of the sinc-kernel operator — for every `N` and `W`. -/
+theorem taper_is_sinc_eigvec (N : ℕ) (W lam : ℝ) (u : ℕ → ℝ)
+    (hu : ∀ m, m < N →
+      triOp (fun n : ℕ => Generated.Dpss.diagGen (N : ℝ) (n : ℝ) (Real.cos (2 * π * W)))
+        (fun n : ℕ => Generated.Dpss.offGen (N : ℝ) ((n : ℝ) + 1)) N u m = lam * u m)
+    (hne : ∃ m, m < N ∧ u m ≠ 0) :
+    ∃ mu : ℝ, ∀ m, m < N → kerOp (sincK W) N u m = mu * u m := by
+  have hD : (fun n : ℕ => Generated.Dpss.diagGen (N : ℝ) (n : ℝ) (Real.cos (2 * π * W)))
+      = slepD N (Real.cos (2 * π * W)) := funext fun n => (generated_matrix_is_slepian N n _).1
+  have hE : (fun n : ℕ => Generated.Dpss.offGen (N : ℝ) ((n : ℝ) + 1)) = slepE N :=
+    funext fun n => (generated_matrix_is_slepian (K := ℝ) N n 0).2
+  rw [hD, hE] at hu
+  exact tri_eigvec_is_sinc_eigvec N W lam u hu hne
+
+/-- **the spectrum of the generated matrix is simple**: two eigenvectors for one eigenvalue are
+proportional, so `Kmax` different tapers belong to `Kmax` different eigenvalues -/
+theorem taper_eigenspace_one_dim (N : ℕ) (W lam : ℝ) (u w : ℕ → ℝ)
+    (hu : ∀ m, m < N → triOp (slepD N (Real.cos (2 * π * W))) (slepE N) N u m = lam * u m)
+    (hw : ∀ m, m < N → triOp (slepD N (Real.cos (2 * π * W))) (slepE N) N w m = lam * w m)
+    (hne : ∃ m, m < N ∧ u m ≠ 0) :
+    ∀ m, m < N → w m = (w 0 / u 0) * u m :=
+  tri_eigvec_unique _ _ N (fun j hj => slepE_ne_zero N j hj) lam u w hu hw
+    (tri_eigvec_first_ne _ _ N (fun j hj => slepE_ne_zero N j hj) lam u hu hne)
+
+/-- **tapers of different orders are orthogonal** (eigenvectors of the symmetric tridiagonal matrix
+for different eigenvalues) -/
+theorem tapers_orthogonal (N : ℕ) (W lam mu : ℝ) (u w : ℕ → ℝ)
+    (hu : ∀ m, m < N → triOp (slepD N (Real.cos (2 * π * W))) (slepE N) N u m = lam * u m)
+    (hw : ∀ m, m < N → triOp (slepD N (Real.cos (2 * π * W))) (slepE N) N w m = mu * w m)
+    (hne : lam ≠ mu) : ∑ m ∈ range N, u m * w m = 0 :=
+  tri_eigvec_orthogonal _ _ N lam mu u w hu hw hne
+
+/-- **the concentration of a unit vector lies in [0, 1]** — now without hypotheses on the kernel: the
+number `dpss_windows` reports (`autocorr·N` dotted with the generated `r`) is the energy of the
+taper's spectrum inside [−W, W], for every `N` and every `0 < W ≤ 1/2` -/
+theorem concentration_in_unit_interval (N : ℕ) (W : ℝ) (hW : 0 < W) (hW2 : W ≤ 1 / 2) (v : ℕ → ℝ)
+    (hunit : ∑ m ∈ range N, v m * v m = 1) :
+    let r : ℕ → ℝ := fun k => if k = 0 then Generated.Dpss.r0Gen W else Generated.Dpss.rGen W (k : ℝ) npSincR
+    0 ≤ quadAutocorr N v r ∧ quadAutocorr N v r ≤ 1 := by
+  intro r
+  obtain ⟨h0, hk⟩ := generated_r_is_twice_sinc W hW.ne'
+  have hr0 : r 0 = (fun k : ℕ => sincK W (k : ℤ)) 0 := by simp [r, h0]
+  have hrk : ∀ k, 1 ≤ k → r k = 2 * (fun k : ℕ => sincK W (k : ℤ)) k := by
+    intro k hk1
+    have : k ≠ 0 := by omega
+    simp only [r, if_neg this]
+    exact hk k hk1
+  rw [concentration_is_rayleigh N v r (fun k : ℕ => sincK W (k : ℤ)) hr0 hrk]
+  have hq : ∑ m ∈ range N, ∑ n ∈ range N, v m * v n * sincK W (((m - n + (n - m) : ℕ)) : ℤ)
+      = sincQuad W N v := by
+    unfold sincQuad
+    refine Finset.sum_congr rfl fun m _ => Finset.sum_congr rfl fun n _ => ?_
+    congr 1
+    rcases Nat.le_total m n with h | h
+    · have : ((m - n + (n - m) : ℕ) : ℤ) = -((m : ℤ) - (n : ℤ)) := by omega
+      rw [this, sincK_even]
+    · have : ((m - n + (n - m) : ℕ) : ℤ) = (m : ℤ) - (n : ℤ) := by omega
+      rw [this]
+  rw [hq]
+  exact ⟨sincQuad_nonneg W hW.le N v, hunit ▸ sincQuad_le W hW.le hW2 N v⟩
+
+/-- non-vacuity: N = 2 — the generated matrix is [[c/4, 1/2], [1/2, c/4]], its eigenvector (1, 1)
+is an eigenvector of the 2×2 sinc matrix -/
+example (W : ℝ) : ∃ mu : ℝ, ∀ m, m < 2 → kerOp (sincK W) 2 (fun _ => 1) m = mu * 1 := by
+  refine taper_is_sinc_eigvec 2 W (Real.cos (2 * π * W) / 4 + 1 / 2) (fun _ => 1) ?_ ⟨0, by norm_num, by norm_num⟩
+  intro m hm
+  have : m = 0 ∨ m = 1 := by omega
+  rcases this with rfl | rfl <;>
+    simp [triOp, Generated.Dpss.diagGen, Generated.Dpss.offGen] <;> ring
+
+end slepian
 
 end Nitime.C07.Props
